@@ -24,7 +24,13 @@ type c17st struct {
 	closed bool  // gzip.Writer.Close ran
 	put    bool  // the writer went back to the pool
 	dm     uint8 // which of the current function's defer statements have been executed on this path
+	gz     uint8 // what the branches taken so far say about the gzip-writer field: 0 nothing, c17gzNil, c17gzSet
 }
+
+const (
+	c17gzNil uint8 = 1 // the response was passed through: no writer was taken from the pool
+	c17gzSet uint8 = 2 // a pooled writer is held
+)
 
 type c17event int
 
@@ -225,11 +231,17 @@ const (
 	c17dEnc   = "on the compress edge Set(Content-Encoding, gzip) must happen before the headers are sent: without it the client shows compressed bytes"
 	c17dLate  = "the decision to compress (and with it the header changes) is taken on a path on which the wrapped WriteHeader has already sent the headers"
 	c17dReset = "a gzip.Writer taken from the pool still points at the previous response: it must be Reset to this response's writer before it is written to"
-	c17dClose = "the gzip stream must be finished (Close writes the trailer) before the writer is recycled"
+	c17dClose = "the gzip stream must be finished (Close writes the last block and the trailer) before the writer is recycled: on this path - through the methods of the response writer and the handler's deferred calls, which run last-in-first-out - sync.Pool.Put is reached while gzip.Writer.Close has not run; another response can take the writer from the pool and Reset it while this one still has to write its tail"
 	c17dAfter = "after Put the writer may already serve another response; using it corrupts that response"
 )
 
 func (e *c17flow) step(i ssa.Instruction, s c17st, deferred bool) c17st {
+	if st, ok := i.(*ssa.Store); ok && e.k.isGz(st.Addr) {
+		s.gz = c17gzSet
+		if isNilConst(st.Val) {
+			s.gz = c17gzNil
+		}
+	}
 	ev := e.classify(i, deferred)
 	if ev != evNone {
 		e.nEv[ev]++
@@ -351,8 +363,22 @@ func (e *c17flow) run(fn *ssa.Function, in c17st, depth int) []c17st {
 			}
 			continue
 		}
-		for _, succ := range it.b.Succs {
+		for idx, succ := range it.b.Succs {
 			for _, s := range cur {
+				// `if gz != nil` in the method that finishes the stream and again in the method that recycles the writer: the
+				// two tests agree, a path that takes the nil arm of one and the non-nil arm of the other does not exist
+				if ft, ok := c17edgeFact(it.b, idx); ok {
+					if nn, isNil := nilFact(ft, e.k.isGzLoad); isNil {
+						want := c17gzNil
+						if nn {
+							want = c17gzSet
+						}
+						if s.gz != 0 && s.gz != want {
+							continue
+						}
+						s.gz = want
+					}
+				}
 				if n := (bs{succ, s}); !seen[n] {
 					seen[n] = true
 					work = append(work, n)
@@ -393,7 +419,93 @@ func (e *c17flow) call(i ssa.Instruction, cc *ssa.CallCommon, s c17st, depth int
 			return out
 		}
 	}
+	if ev := e.classify(i, deferred); ev == evNone && e.k.handsOutT(cc) {
+		s.gz = 0 // code outside the region gets hold of the response writer: it may run WriteHeader (which takes a writer)
+	}
 	return []c17st{e.step(i, s, deferred)}
+}
+
+// isGzLoad: v is the gzip-writer field, or a local copy of it (`gz := grw.gzipWriter; if gz == nil`).
+func (k *c17kit) isGzLoad(v ssa.Value) bool {
+	if k.isGz(v) {
+		return true
+	}
+	if !c17isGzipType(v.Type()) {
+		return false
+	}
+	ls := k.origins(v, k.isGz)
+	for _, l := range ls {
+		if !k.isGz(l.v) {
+			return false
+		}
+	}
+	return len(ls) > 0
+}
+
+// handsOutT: the call passes the compressing response writer (as itself or boxed in an interface) to its callee.
+func (k *c17kit) handsOutT(cc *ssa.CallCommon) bool {
+	vals := append([]ssa.Value{}, cc.Args...)
+	if cc.IsInvoke() {
+		vals = append(vals, cc.Value)
+	}
+	for _, v := range vals {
+		for _, l := range k.origins(v, func(x ssa.Value) bool { return k.isT(x.Type()) }) {
+			if k.isT(l.v.Type()) {
+				return true
+			}
+		}
+	}
+	return false
+}
+
+// flowEntries: where the typestate engine starts with an empty state: every method of the response writer that code
+// outside the region can call (the interface methods Write, WriteHeader, Close ...), and the handler that creates the
+// writer and serves with it. A method all of whose call sites are visible static calls inside the region (the
+// unexported `release` that the handler defers next to Close) is NOT evaluated on its own - what it may assume depends
+// on what its callers did before - but in the context of each of its callers, where it is inlined.
+func (k *c17kit) flowEntries() []*ssa.Function {
+	var out []*ssa.Function
+	seen := map[*ssa.Function]bool{}
+	var add func(f *ssa.Function, d int)
+	add = func(f *ssa.Function, d int) {
+		if f == nil || seen[f] {
+			return
+		}
+		seen[f] = true
+		if d < 4 && k.contextOnly(f) {
+			for _, s := range gSites[f] {
+				add(s.Parent(), d+1)
+			}
+			return
+		}
+		out = append(out, f)
+	}
+	for _, m := range k.methods {
+		add(m, 0)
+	}
+	for _, sv := range k.serveSites() {
+		if len(sv.created) > 0 {
+			add(sv.i.Parent(), 0)
+		}
+	}
+	return out
+}
+
+func (k *c17kit) contextOnly(f *ssa.Function) bool {
+	if f.Parent() == nil && f.Signature.Recv() != nil {
+		// a method: never used as a value, and no call through an interface can reach it
+		if len(gSites[f]) == 0 || gAddrTaken[f] || k.invokable(f) {
+			return false
+		}
+	} else if !c17closed(f) {
+		return false
+	}
+	for _, s := range gSites[f] {
+		if _, isGo := s.(*ssa.Go); isGo || s.Parent() == nil || s.Parent() == f || !k.inRegion(s.Parent()) {
+			return false
+		}
+	}
+	return true
 }
 
 // callees: the functions of the region that a call may execute: the static callee, the region's implementations of an
@@ -529,5 +641,28 @@ func c17stKey(s c17st) int {
 			n |= 1 << i
 		}
 	}
-	return n | int(s.dm)<<8
+	return n | int(s.dm)<<8 | int(s.gz)<<16
+}
+
+// invokable: some call through an interface in the repository can reach method f: same name (an unexported name
+// belongs to its package: only an interface of f's own package can have it) and the same parameters and results.
+// (c17closed asks gInvoked for the bare name, which makes `release` dynamic as soon as any interface anywhere in
+// the repository has a method of that name.)
+func (k *c17kit) invokable(f *ssa.Function) bool {
+	found := false
+	eachInstrOf(k.c.AllFns, func(_ *ssa.Function, i ssa.Instruction) {
+		cc := callCommon(i)
+		if found || cc == nil || !cc.IsInvoke() || cc.Method.Name() != f.Name() {
+			return
+		}
+		if !token.IsExported(f.Name()) && (f.Pkg == nil || cc.Method.Pkg() != f.Pkg.Pkg) {
+			return
+		}
+		ms, ok := cc.Method.Type().(*types.Signature)
+		if !ok || !types.Identical(ms.Params(), f.Signature.Params()) || !types.Identical(ms.Results(), f.Signature.Results()) || ms.Variadic() != f.Signature.Variadic() {
+			return
+		}
+		found = true
+	})
+	return found
 }
